@@ -3,6 +3,7 @@ package main
 
 import (
 	"encoding/base64"
+	"encoding/binary"
 	"encoding/json"
 	"fmt"
 	"math/big"
@@ -16,6 +17,8 @@ import (
 	govtypes "github.com/cosmos/cosmos-sdk/x/gov/types"
 	proposaltypes "github.com/cosmos/cosmos-sdk/x/params/types/proposal"
 	stakingtypes "github.com/cosmos/cosmos-sdk/x/staking/types"
+
+	transfertypes "github.com/cosmos/ibc-go/v3/modules/apps/transfer/types"
 
 	"github.com/ethereum/go-ethereum/common"
 	"github.com/ethereum/go-ethereum/crypto"
@@ -266,6 +269,27 @@ func (c *Chain) randomLocalActivity(r *hlib.Rand, st *localState) {
 	}
 }
 
+// ibcHookRecv: one incoming ICS-20 transfer as the aggregate hook sees it (out-of-band keeper call; the typed event it
+// emits is what the operation's events digest covers).  kind: 0 receiver that is not a 20-byte address (vouchers left
+// unconverted), 1 malformed packet data, 2 amount that is not a number, 3 unregistered denomination.
+func (c *Chain) ibcHookRecv(r *hlib.Rand, kind int, seq uint64) {
+	receiver := c.Acc2.String()
+	amount := fmt.Sprint(1 + r.Intn(100000))
+	switch kind {
+	case 0:
+		receiver = sdk.AccAddress(r.Bytes(32)).String() // e.g. an interchain / module-style account
+	case 2:
+		amount = "12x"
+	}
+	data := transfertypes.NewFungibleTokenPacketData("uatom", amount, "cosmos1sender", receiver).GetBytes()
+	if kind == 1 {
+		data = append([]byte("{"), r.Bytes(5)...)
+	}
+	var sq [8]byte
+	binary.BigEndian.PutUint64(sq[:], seq)
+	c.OOB("aggregate_ibc_recv", data, sq[:], []byte(fmt.Sprintf("channel-%d", r.Intn(4))), []byte("channel-0"))
+}
+
 type localState struct {
 	erc20s         []common.Address
 	registered     []common.Address
@@ -275,8 +299,18 @@ type localState struct {
 func scenarioSingle(r *hlib.Rand, steps int) []*Chain {
 	c := NewChain(r, "teleport_9000-10", 1+r.Intn(3))
 	st := &localState{}
+	// directed prelude (runs in every single-chain history): the branches of the ICS-20 hook, the non-EVM receiver first
+	c.Begin()
+	for i, k := range []int{0, 0, 3, 0, 1, 0, 2, 0} {
+		c.ibcHookRecv(r, k, uint64(i+1))
+	}
+	c.EndCommit()
 	for i := 0; i < steps; i++ {
 		c.randomLocalActivity(r, st)
+		if r.Chance(1, 8) {
+			c.Begin()
+			c.ibcHookRecv(r, r.Intn(4), uint64(100+i))
+		}
 	}
 	c.EndCommit()
 	return []*Chain{c}
@@ -293,6 +327,7 @@ type link struct {
 func setupClients(r *hlib.Rand, a, b *Chain, viaGov bool) bool {
 	a.EndCommit()
 	b.EndCommit()
+	twoRelayers := r.Bool()
 	for _, p := range [][2]*Chain{{a, b}, {b, a}} {
 		c, o := p[0], p[1]
 		cs, cons := TMClientStateOf(o)
@@ -310,6 +345,16 @@ func setupClients(r *hlib.Rand, a, b *Chain, viaGov bool) bool {
 			b2, _ := consAny.Marshal()
 			c.OOB("create_client", []byte(o.ChainID), b1, b2)
 			c.OOB("register_relayer", []byte(c.Acc.String()), []byte(o.ChainID), []byte(o.Acc.String()))
+		}
+		// in half of the histories a SECOND teleport account registers the same address on the other chain: the
+		// acknowledgement's fee goes to the relayer found for that address (GetRelayerAddressOnTeleport) — with two
+		// candidates the choice has to be the same on every node
+		if twoRelayers {
+			if viaGov {
+				c.Propose("xibc-register-relayer-same-foreign-address", clienttypes.NewRegisterRelayerProposal("t", "d", c.Acc2.String(), []string{o.ChainID}, []string{o.Acc.String()}), false)
+			} else {
+				c.OOB("register_relayer", []byte(c.Acc2.String()), []byte(o.ChainID), []byte(o.Acc.String()))
+			}
 		}
 	}
 	if viaGov {
